@@ -34,68 +34,84 @@ theorem reopenSpec_eq (c : Cfg) (D : Nat) :
   · simp only [h, if_true]
   · simp only [h, if_false]
 
-/-- the class of the known finding KF-IRCAM-BE-CHANNELS -/
+/-- the class of the repaired defect KF-IRCAM-BE-CHANNELS -/
 def KF.beChannels (c : Cfg) : Prop := c.big = true ∧ 128 ≤ c.ch ∧ c.ch ≤ 255
 instance (c : Cfg) : Decidable (KF.beChannels c) := by unfold KF.beChannels; infer_instance
 
-/-- the full statement: every accepted configuration re-opens as `reopenSpec` says -/
-def ircam_reopen_full : Prop :=
-  ∀ c : Cfg, c.wf → ∀ (stale : Nat) (ops : List WOp), parse (closedBytes (spec c) stale ops) = reopenSpec c (opsData ops).length
+/-- the full statement for a reader `p`: every accepted configuration re-opens as `reopenSpec` says -/
+def reopenFull (p : List Byte → ParseRes) : Prop :=
+  ∀ c : Cfg, c.wf → ∀ (stale : Nat) (ops : List WOp), p (closedBytes (spec c) stale ops) = reopenSpec c (opsData ops).length
 
-/-- **ircam_be_channels_rejected.**  A big-endian file with 128..255 channels cannot be re-opened, whatever was
-    written: the reader guesses the byte order from the channel field read little-endian, which is a negative int
-    for these counts. -/
-theorem ircam_be_channels_rejected (c : Cfg) (hwf : c.wf) (hk : KF.beChannels c) (stale : Nat) (ops : List WOp) :
-    parse (closedBytes (spec c) stale ops) = .err ∧ parse (snapshotBytes (spec c) stale ops) = .err := by
+def ircam_reopen_full : Prop := reopenFull parse
+
+/-- **ircam_reopen_info** (full strength since the repair of KF-IRCAM-BE-CHANNELS).  For every accepted configuration —
+    either byte order, 1..256 channels — and every session the closed file re-opens with the requested channels and
+    format word, the rate `rateQ sr`, and frames = audio bytes / block width. -/
+theorem ircam_reopen_info (c : Cfg) (hwf : c.wf) (stale : Nat) (ops : List WOp) :
+    parse (closedBytes (spec c) stale ops) = reopenSpec c (opsData ops).length := by
+  rw [closedBytes_eq, reopenSpec_eq]
+  exact parse_hdr c hwf _
+
+theorem ircam_reopen_full_holds : ircam_reopen_full := fun c hwf stale ops => ircam_reopen_info c hwf stale ops
+
+/-- **ircam_be_channels_old_rule.**  With the byte-order guess of before the repair ("channels > SF_MAX_CHANNELS read
+    little-endian ⇒ big-endian") a big-endian file with 128..255 channels could not be re-opened, whatever was written:
+    read little-endian the count is a negative int. -/
+theorem ircam_be_channels_old_rule (c : Cfg) (hwf : c.wf) (hk : KF.beChannels c) (stale : Nat) (ops : List WOp) :
+    parseOld (closedBytes (spec c) stale ops) = .err ∧ parseOld (snapshotBytes (spec c) stale ops) = .err := by
   rw [closedBytes_eq, snapshotBytes_eq]
-  exact ⟨parse_hdr_be_missed c hwf hk.1 hk.2 _, parse_hdr_be_missed c hwf hk.1 hk.2 _⟩
+  exact ⟨parseOld_hdr_be_missed c hwf hk.1 hk.2 _, parseOld_hdr_be_missed c hwf hk.1 hk.2 _⟩
+
+/-- … and outside that class the old reader did what the current one does -/
+theorem ircam_reopen_info_old_rule (c : Cfg) (hwf : c.wf) (hk : ¬ KF.beChannels c) (stale : Nat) (ops : List WOp) :
+    parseOld (closedBytes (spec c) stale ops) = reopenSpec c (opsData ops).length := by
+  rw [closedBytes_eq, reopenSpec_eq]
+  exact parseOld_hdr c hwf hk _
 
 def exBad : Cfg := ⟨0x02, 2, 128, 44100⟩
 
-/-- the full statement fails: 128 channels big-endian at 44100 Hz is the witness -/
-theorem ircam_reopen_full_fails : ¬ ircam_reopen_full := by
+/-- the full statement failed for the old reader: 128 channels big-endian at 44100 Hz is the witness -/
+theorem ircam_reopen_full_old_rule_fails : ¬ reopenFull parseOld := by
   intro h
   have h1 := h exBad (by decide) 0 []
-  rw [(ircam_be_channels_rejected exBad (by decide) (by decide) 0 []).1] at h1
+  rw [(ircam_be_channels_old_rule exBad (by decide) (by decide) 0 []).1] at h1
   revert h1; decide +kernel
 
-/-- **ircam_reopen_info** (partial: outside exactly the class of KF-IRCAM-BE-CHANNELS).  For every accepted
-    configuration and every session the closed file re-opens with the requested channels and format word, the rate
-    `rateQ sr`, and frames = audio bytes / block width — or not at all when `rateQ sr` is none (KF-C10-ircam-rate). -/
-theorem ircam_reopen_info_partial (c : Cfg) (hwf : c.wf) (hk : ¬ KF.beChannels c) (stale : Nat) (ops : List WOp) :
-    parse (closedBytes (spec c) stale ops) = reopenSpec c (opsData ops).length := by
-  rw [closedBytes_eq, reopenSpec_eq]
-  by_cases hb : c.big = true
-  · exact parse_hdr_be c hwf hb (fun h => hk ⟨hb, h⟩) _
-  · exact parse_hdr_le c hwf (by simpa using hb) _
+-- the witness of the repaired defect re-opens now
+example : parse (closedBytes (spec exBad) 0 []) = .ok ⟨128, 0x200A0002, 44100, 0⟩ := by
+  rw [ircam_reopen_info exBad (by decide)]; decide +kernel
 
 def exCfg : Cfg := ⟨0x06, 2, 2, 44100⟩
 def exLe : Cfg := ⟨0x10, 0, 3, 16777217⟩
 def exOps : List WOp := [.write [0, 1, 0, 2, 0, 3, 0, 4] false, .update, .write [0, 1, 0, 2, 0, 3, 0, 4, 0, 1, 0, 2, 0, 3, 0, 4] true]
 
-example : exCfg.wf ∧ ¬ KF.beChannels exCfg ∧ reopenSpec exCfg 24 = .ok ⟨2, 0x200A0006, 44100, 3⟩ ∧
-    exLe.wf ∧ ¬ KF.beChannels exLe ∧ reopenSpec exLe 7 = .ok ⟨3, 0x100A0010, 16777216, 2⟩ := by decide +kernel
+example : exCfg.wf ∧ reopenSpec exCfg 24 = .ok ⟨2, 0x200A0006, 44100, 3⟩ ∧
+    exLe.wf ∧ reopenSpec exLe 7 = .ok ⟨3, 0x100A0010, 16777216, 2⟩ := by decide +kernel
 example : KF.beChannels exBad ∧ exBad.wf := by decide
 
 /-! ### the rate quantiser -/
 
-/-- what C04 asks of the rate field: every rate a caller may pass re-opens as some positive rate -/
-def ircam_rate_full : Prop := ∀ sr : Nat, 1 ≤ sr → sr ≤ 0x7FFFFFFF → rateQ sr ≠ none
+/-- what C04 asks of a rate rule `q`: every rate a caller may pass re-opens as some positive rate -/
+def rateFull (q : Nat → Option Nat) : Prop := ∀ sr : Nat, 1 ≤ sr → sr ≤ 0x7FFFFFFF → q sr ≠ none
 
-/-- the class of the known finding KF-C10-ircam-rate -/
+def ircam_rate_full : Prop := rateFull rateQ
+
+/-- the class of the repaired defect KF-C10-ircam-rate -/
 def KF.rateLost (sr : Nat) : Prop := 2 ^ 31 - 64 ≤ sr
 instance (sr : Nat) : Decidable (KF.rateLost sr) := by unfold KF.rateLost; infer_instance
 
-/-- the full statement fails: 2^31 − 1 Hz rounds to 2^31 as a float and comes back as INT_MIN -/
-theorem ircam_rate_full_fails : ¬ ircam_rate_full := by
-  intro h
-  exact h (2 ^ 31 - 1) (by decide) (by decide) (by decide +kernel)
+/-- **ircam_rate_old_rule.**  Without the cap in the writer, 2^31 − 1 Hz (and 2^31 − 64 Hz, the first rate of the class)
+    rounds to 2^31 as a float and comes back as INT_MIN: the full statement failed -/
+theorem ircam_rate_old_rule : rateQOld (2 ^ 31 - 64) = none ∧ rateQOld (2 ^ 31 - 1) = none ∧ ¬ rateFull rateQOld := by
+  refine ⟨by decide +kernel, by decide +kernel, fun h => h (2 ^ 31 - 1) (by decide) (by decide) (by decide +kernel)⟩
 
-/-- boundary values of the quantiser: exact up to 2^24, round-to-nearest-even above, lost from 2^31 − 64 on -/
+/-- boundary values of the quantiser: exact up to 2^24, round-to-nearest-even above, capped at 2^31 − 128 from
+    2^31 − 64 on (the class of the repaired KF-C10-ircam-rate); outside the class the old rule gave the same -/
 theorem ircam_rate_boundaries :
     rateQ 1 = some 1 ∧ rateQ 44100 = some 44100 ∧ rateQ (2 ^ 24) = some (2 ^ 24) ∧ rateQ (2 ^ 24 + 1) = some (2 ^ 24) ∧
-    rateQ (2 ^ 24 + 3) = some (2 ^ 24 + 4) ∧ rateQ (2 ^ 31 - 65) = some (2 ^ 31 - 128) ∧ rateQ (2 ^ 31 - 64) = none ∧
-    rateQ (2 ^ 31 - 1) = none ∧ KF.rateLost (2 ^ 31 - 64) ∧ ¬ KF.rateLost (2 ^ 31 - 65) := by decide +kernel
+    rateQ (2 ^ 24 + 3) = some (2 ^ 24 + 4) ∧ rateQ (2 ^ 31 - 65) = some (2 ^ 31 - 128) ∧ rateQ (2 ^ 31 - 64) = some (2 ^ 31 - 128) ∧
+    rateQ (2 ^ 31 - 1) = some (2 ^ 31 - 128) ∧ KF.rateLost (2 ^ 31 - 64) ∧ ¬ KF.rateLost (2 ^ 31 - 65) ∧
+    rateQOld (2 ^ 31 - 65) = rateQ (2 ^ 31 - 65) ∧ rateQOld (2 ^ 24 + 3) = rateQ (2 ^ 24 + 3) := by decide +kernel
 
 /-! ### sizes, frames, the caller's frames field, header updates -/
 
@@ -107,14 +123,14 @@ theorem ircam_size_fields (c : Cfg) (stale : Nat) (ops : List WOp) :
   exact ⟨by rw [List.length_append, hdr_length]; rfl, List.take_left' (hdr_length c)⟩
 
 /-- **ircam_frames_bound.**  N whole frames written: the re-opened count is exactly N (when the file re-opens). -/
-theorem ircam_frames_bound (c : Cfg) (hwf : c.wf) (hk : ¬ KF.beChannels c) (stale : Nat) (ops : List WOp) (N q : Nat)
+theorem ircam_frames_bound (c : Cfg) (hwf : c.wf) (stale : Nat) (ops : List WOp) (N q : Nat)
     (hN : (opsData ops).length = N * c.bw) (hq : rateQ c.sr = some q) :
     ∃ F, parse (closedBytes (spec c) stale ops) = .ok { ch := c.ch, fmt := c.fmtWord, sr := q, frames := F } ∧ N ≤ F ∧ F < N + 1 := by
   refine ⟨N, ?_, Nat.le_refl _, Nat.lt_succ_self _⟩
   have hbw : 0 < c.bw := by
     obtain ⟨_, h1, _⟩ := cfg_cases c hwf
     unfold Cfg.bw Cfg.bytewidth; split <;> (try split) <;> omega
-  rw [ircam_reopen_info_partial c hwf hk, hN]
+  rw [ircam_reopen_info c hwf, hN]
   unfold reopenSpec
   rw [hq, Nat.mul_div_cancel _ hbw]
 
@@ -130,16 +146,16 @@ example : closedBytes (spec exCfg) 0 exOps = closedBytes (spec exCfg) 123456 exO
   rw [closedBytes_eq, closedBytes_eq]
 
 /-- **ircam_snapshot_valid** (C11).  After any session prefix, the image a header update leaves in the store is the
-    header followed by exactly the audio written so far, and (outside the channel class) it parses like a closed file
+    header followed by exactly the audio written so far, and it parses like a closed file
     of that length. -/
-theorem ircam_snapshot_valid (c : Cfg) (hwf : c.wf) (hk : ¬ KF.beChannels c) (stale : Nat) (ops : List WOp) :
+theorem ircam_snapshot_valid (c : Cfg) (hwf : c.wf) (stale : Nat) (ops : List WOp) :
     parse (snapshotBytes (spec c) stale ops) = reopenSpec c (opsData ops).length ∧
     snapshotBytes (spec c) stale ops = closedBytes (spec c) stale ops := by
   refine ⟨?_, by rw [snapshotBytes_eq, closedBytes_eq]⟩
   rw [snapshotBytes_eq, ← closedBytes_eq c stale ops]
-  exact ircam_reopen_info_partial c hwf hk stale ops
+  exact ircam_reopen_info c hwf stale ops
 
 example : parse (snapshotBytes (spec exLe) 7 [.write [1, 2, 3, 4, 5, 6] false]) = .ok ⟨3, 0x100A0010, 16777216, 2⟩ := by
-  rw [(ircam_snapshot_valid exLe (by decide) (by decide) 7 _).1]; decide +kernel
+  rw [(ircam_snapshot_valid exLe (by decide) 7 _).1]; decide +kernel
 
 end Sf.C04Ircam
